@@ -13,6 +13,21 @@ EXTENDS MeshValue
 
 S(step, pool, k) == pool[step.src[k]]
 
+AttrOps == {"Normalize", "FlatNormals", "SmoothNormals", "Laplacian"}
+AttrTarget(step) == IF step.op \in {"FlatNormals", "SmoothNormals"} THEN 2 ELSE step.args.id
+AttrExpect(step, a) ==
+    CASE step.op = "Normalize" -> IF HasAttr(a, 3, step.args.id) THEN a ELSE FailMesh
+      [] step.op \in {"FlatNormals", "SmoothNormals"} ->
+            IF a.topo = "triangle" /\ HasAttr(a, 3, 1) THEN a ELSE FailMesh
+      [] OTHER -> IF HasAttr(a, 3, step.args.id) /\ a.topo \in {"triangle", "line strip", "line", "line loop"} THEN a ELSE FailMesh
+AttrOk(step, a, res) ==
+    /\ AttrFrameOk(res, a, 3, AttrTarget(step))
+    /\ LET data == AttrData(res, 3, AttrTarget(step)) IN
+       CASE step.op = "Normalize" -> NormalizeOk(a, step.args.id, data)
+         [] step.op = "FlatNormals" -> FlatNormalsOk(a, data)
+         [] step.op = "SmoothNormals" -> SmoothNormalsOk(a, data)
+         [] OTHER -> LaplacianOk(a, step.args.id, step.args.iters, data)
+
 Expect(step, pool) ==
     LET op == step.op
         g == step.args
@@ -44,6 +59,7 @@ Expect(step, pool) ==
          [] op = "Filter"        -> FilterGE(a, g.ar, g.id, g.thr)
          [] op = "Crop"          -> Crop(a, g.id, g.lo, g.hi)
          [] op = "Repeat"        -> Repeat(a, g.trss)
+         [] op \in AttrOps       -> AttrExpect(step, a)   \* FAIL or the source (value judged by AttrOk)
          [] OTHER                -> NullMesh      \* Export / Scan: no mesh result
 
 \* comparison class of the operation's result (C03)
@@ -51,6 +67,7 @@ Class(op) ==
     CASE op \in {"Unweld", "RemoveUnreferenced", "Split", "Filter", "Crop"} -> "corners"
       [] op \in {"Weld", "RemoveNullFaces"} -> "cornersnomats"
       [] op \in {"Export", "Scan"} -> "none"
+      [] op \in AttrOps -> "attr"
       [] OTHER -> "exact"
 
 Equiv(class, res, exp) ==
@@ -84,10 +101,16 @@ Judgeable(step, pool) ==
     LET op == step.op
         g == step.args
         a == S(step, pool, 1)
-    IN CASE op = "CenterAttr" -> HasAttr(a, 3, g.id) => CenterExact(a, g.id)
+    IN \* values that left the 1/Q lattice (normals, normalised vectors...) are only known rounded:
+       \* a reference computed from them could differ in the last unit, so such sources are not judged by value
+       /\ \A k \in DOMAIN step.src : pool[step.src[k]].exact
+       /\ CASE op = "CenterAttr" -> HasAttr(a, 3, g.id) => CenterExact(a, g.id)
          [] op = "RemoveNullFaces" ->
                  HasAttr(a, 3, g.id) => (OnIntLattice(AttrData(a, 3, g.id)) /\ SmallInt(AttrData(a, 3, g.id), 1000))
          [] op = "Weld" -> HasAttr(a, 3, g.id) => SmallInt(AttrData(a, 3, g.id), 1000)
+         [] op = "Normalize" -> NormalizeJudgeable(a, g.id)
+         [] op \in {"FlatNormals", "SmoothNormals"} -> NormalsJudgeable(a) /\ AttrLen(a) > 0
+         [] op = "Laplacian" -> LaplacianJudgeable(a, g.id) /\ a.topo = "triangle" /\ AttrLen(a) > 0
          [] OTHER -> TRUE
 
 Pre(step, pool) == Admissible(step, pool) /\ Judgeable(step, pool)
@@ -122,6 +145,9 @@ Judge(step, res, before, after) ==
     IN (IF frameBad # {} THEN {"C01.Frame"} ELSE {})
        \cup (IF dstBad THEN {"Harness.Dst"} ELSE {})
        \cup (IF adm /\ IsMesh(res) /\ ~WellFormed(res) THEN {"C02.WellFormed"} ELSE {})
-       \cup (IF pre /\ ~Equiv(Class(step.op), res, exp) THEN {"C03.Result"} ELSE {})
+       \cup (IF pre /\ Class(step.op) # "attr" /\ ~Equiv(Class(step.op), res, exp) THEN {"C03.Result"} ELSE {})
+       \cup (IF pre /\ Class(step.op) = "attr" /\
+                 ~(IF IsFail(exp) THEN IsFail(res) ELSE IsMesh(res) /\ AttrOk(step, S(step, before, 1), res))
+             THEN {"C03.Result"} ELSE {})
        \cup (IF pre /\ IsMesh(res) /\ IsMesh(exp) /\ ~PostOk(step, res, before) THEN {"C03.Post"} ELSE {})
 =============================================================================
